@@ -53,7 +53,7 @@ theorem run_preserves_within (μ : MicroOp) (r : Regs) (m : M) (hA : within A μ
   cases μ
   case readParamA => exact hr _ _ hA hp
   case readParamB => exact hr _ _ hA hp
-  case ldRM d => exact hr _ _ hA hp
+  case ldRM dst => exact hr _ _ hA hp
   case ldMR s => exact hw _ _ _ hA hp
   case bitM n => exact hr _ _ hA hp
   case alu op s =>
